@@ -81,6 +81,8 @@ pub fn zkey_from_raw(zkey_data: &[u8]) -> Result<(ProvingKey<Curve>, ConstraintM
 // Loads the proving key
 #[cfg(not(target_arch = "wasm32"))]
 pub fn zkey_from_folder() -> &'static (ProvingKey<Curve>, ConstraintMatrices<Fr>) {
+    #[cfg(zerokit_verif)]
+    utils::verif::yield_point("zkey_from_folder");
     &ZKEY
 }
 
